@@ -459,6 +459,15 @@ DeployEv(e) ==
      !.lastev = [op |-> e.op, ret |-> e.ret],
      !.div = (div \/ ~aliveok)]
 
+(* ------------------------- truncated image (C09) -------------------------------------------- *)
+\* the file left behind by save() was cut at byte k (0 <= k < size of the file): load() must return an error
+TruncLoadEv(e) ==
+  IF void \/ IsNull(gs[e.h]) THEN Voided
+  ELSE [Cur EXCEPT !.fails = fails \cup
+          (IF e.k < e.size
+           THEN (IF e.ret = "err" THEN {} ELSE {F(e, "C09", IF e.ret = "ok" THEN "a truncated image was loaded as a graph" ELSE "load() of a truncated image panicked")})
+           ELSE (IF e.ret = "complete-image-rejected" THEN {F(e, "C08", "the complete image written by save() does not load")} ELSE {}))]
+
 Judge(e) ==
   CASE e.op = "reset" -> Reset(e)
     [] e.op = "end" -> End(e)
@@ -471,6 +480,7 @@ Judge(e) ==
     [] e.op = "vprint" -> VPrintEv(e)
     [] e.op = "inspect" -> InspectEv(e)
     [] e.op = "deploy" -> DeployEv(e)
+    [] e.op = "truncload" -> TruncLoadEv(e)
 
 TNext ==
   /\ l <= Len(Rec)
